@@ -110,6 +110,22 @@ def func_entries():
     return out
 
 
+DECL_SLOTS = [("md", [("md", " !a !0", "!a !0"), ("md2", " !a !0 !b !1", "!a !0 !b !1")]),
+              ("linkage", [("extern_weak", "extern_weak ", "extern_weak "), ("external", "external ", "external ")])] + \
+             [(n, [c for c in cs if c[0] != "amdgpu_kernel"]) for n, cs in FUNC_SLOTS if n in ("preempt", "vis", "dll", "cc", "retattr", "uaddr", "as", "fattr", "section", "align", "gc")]
+
+
+def decl_entries():
+    """function DECLARATIONS: metadata attachments come before the header (`declare !a !0 extern_weak i8* @f(i8*)`), every pair of optional clauses"""
+    out = []
+    for label, sel in _pairs(DECL_SLOTS):
+        g = lambda s: _get(sel, s)
+        head = ("declare%s %s%s%s%s%s%si8* @f(i8* %%0)%s%s%s%s%s%s" %
+                (g("md"), g("linkage"), g("preempt"), g("vis"), g("dll"), g("cc"), g("retattr"), g("uaddr"), g("as"), g("fattr"), g("section"), g("align"), g("gc")))
+        out.append(("clause.decl." + label, head + "\n\nattributes #0 = { noinline }\n" + MD, _frags(sel)))
+    return out
+
+
 CALL_SLOTS = [
     ("tail", [("tail", "tail ", "tail call"), ("notail", "notail ", "notail call")]),
     ("fmf", [("nnan", "nnan ", "nnan "), ("fast", "fast ", "fast ")]),
@@ -185,4 +201,4 @@ def mem_entries():
 
 
 def all_entries():
-    return global_entries() + symbol_entries() + func_entries() + call_entries() + mem_entries()
+    return global_entries() + symbol_entries() + func_entries() + decl_entries() + call_entries() + mem_entries()
